@@ -451,3 +451,16 @@ def lfsr_spec_orbit(ctx, eng, ce):
         lem.add("lemma:period:%s:reload" % nm, z3.And(hyp, t == 0, t1 != P - 1))
     lem.covers.append(("lemma:period#cover", z3.BoolVal(True)))
     return lem
+
+
+def register_semantics_tasks(ctx):
+    """the contracts of the sound register handlers, trigger functions and length/sweep clocks (status bits, length counters, DAC
+    rule, extra length clock, sweep): C19 owns them, and the other APU properties, whose lemmas talk about the same state, carry
+    them as obligations too"""
+    import props.C19 as c19
+    from engine.driver import Task
+    ts = [Task(f, f, keep=c19.KEEP) for f in c19.FU]
+    ts.append(Task("(*audio.square).trigger[ch1]", "(*audio.square).trigger", variant="with-sweep", keep=c19.KEEP))
+    ts.append(Task("(*audio.square).trigger[ch2]", "(*audio.square).trigger", variant="no-sweep", overrides={"s.sweep": nil_value}, keep=c19.KEEP))
+    ts += [Task(A + f, A + f, overrides=OV, keep=c19.KEEP) for f in c19.AU]
+    return ts
